@@ -23,6 +23,12 @@ type Violation struct {
 	Got      string   `json:"got"`
 	Finding  string   `json:"finding,omitempty"` // id of the known finding it was attributed to
 	Note     string   `json:"note,omitempty"`
+	// Unit/Tier locate the enumeration the case came from; HistoryDependent marks a case that
+	// fails only after the cases enumerated before it in that unit (hidden state in the code
+	// under test), in which case replay re-runs the unit.
+	Unit             string `json:"unit,omitempty"`
+	Tier             string `json:"tier,omitempty"`
+	HistoryDependent bool   `json:"history_dependent,omitempty"`
 }
 
 func (v *Violation) Key() string {
@@ -60,6 +66,8 @@ type Result struct {
 	Classifier  func(v *Violation) string `json:"-"`
 	sampleEvery map[string]int64
 	perScopeNew map[string]int
+	CurUnit     string `json:"-"`
+	CurTier     string `json:"-"`
 }
 
 func NewResult() *Result {
@@ -125,6 +133,7 @@ func (r *Result) Incompletef(f string, a ...any) {
 
 // Violate records a failing case; it is classified against the active known findings first.
 func (r *Result) Violate(v Violation) {
+	v.Unit, v.Tier = r.CurUnit, r.CurTier
 	if r.Classifier != nil {
 		if id := r.Classifier(&v); id != "" {
 			v.Finding = id
